@@ -322,5 +322,6 @@ def r5_subtoken_filter(ctx):
     et = ctx.prog.func(f'{EXP}.export_token')
     calls = [c for c in walk_local(et.node) if isinstance(c, ast.Call) and isinstance(c.func, ast.Attribute) and c.func.attr == 'create'
              and src(c.func.value) == 'TokenizerFactory']
-    okc = len(calls) == 1 and any(k.arg == 'token_categories' and src(k.value) == 'options.token_categories' for k in calls[0].keywords)
+    okc = len(calls) >= 1 and all(any(k.arg == 'token_categories' and src(k.value) == 'options.token_categories' for k in c_.keywords)
+                                  for c_ in calls)
     ctx.check(okc, 'R5', et.loc, et.qualname, 'export-token-forwards-categories', 'export_token hands options.token_categories to the tokenizer')
